@@ -49,6 +49,8 @@ class LoopSpec:
     decreases: str | None = None
     ghost_pre: list = field(default_factory=list)
     unfold: list = field(default_factory=list)      # parameterised definitions instantiated at the loop index
+    hints: list = field(default_factory=list)       # Clause: proved at the end of the body (index = this iteration), then assumed
+    cases: list = field(default_factory=list)       # expressions (over the iteration's locals) the body obligations are split on
 
 
 @dataclass
@@ -118,6 +120,7 @@ def contract(key, *, props=(), params=None, closure=None, result=None, requires=
                 invariants=_clauses(v.get('invariants', []), props),
                 index=v.get('index'), modifies=list(v.get('modifies', [])),
                 decreases=v.get('decreases'), unfold=list(v.get('unfold', [])),
+                hints=_clauses(v.get('hints', []), props), cases=list(v.get('cases', [])),
             )
     c = Contract(
         key=key, props=props, params=dict(params or {}), closure=dict(closure or {}),
